@@ -23,7 +23,8 @@ RULE = ('cases = lists of 1-6 RuleDefault / DocumentedRuleDefault objects (plain
         'rule alphabet incl. single-quoted literals, %(key)s, #, colons, non-ASCII (printable, no double quote / backslash); '
         'descriptions and reasons from printable Unicode plus newlines (LF, CRLF, bare CR, NEL, LS, PS), tabs, #, quotes, colons, ---, list markers, '
         'leading whitespace (literal blocks), >70-column words, emoji; YAML and JSON output; with and without '
-        'exclude-deprecated. Non-trivial = some description/reason contains a line break, a YAML-significant character or '
+        'exclude-deprecated; defaults spread over 1-4 namespaces some of which register nothing; output written to a fresh path or '
+        'over an existing longer file of an earlier run. Non-trivial = some description/reason contains a line break, a YAML-significant character or '
         'an over-long word; distinct = distinct (defaults, options).')
 ASSUMPTIONS = ['rule lines are recognised by ^#" (pinned literally by the repository\'s GenerateSampleYAMLTestCase)',
                'operation paths, methods, scope types and deprecated_since are single-line printable strings (quantifier)',
@@ -32,7 +33,7 @@ LEVEL_TEXT = ('Seeded sampling of default lists with an adversarial text generat
               'parsers and by the library loader. The description space is unbounded text, so adversarial sampling is the level.')
 LEVEL_NOTE = 'trusted: PyYAML and json as independent readers of the generated text'
 PLAN = {'quick': dict(shards=4, wall=60), 'thorough': dict(shards=16, wall=400)}
-MIN = {'evaluations': 1000, 'yaml_samples': 500, 'json_samples': 300, 'hostile_descriptions': 500, 'deprecated_entries': 300}
+MIN = {'evaluations': 1000, 'yaml_samples': 500, 'json_samples': 300, 'hostile_descriptions': 500, 'deprecated_entries': 300, 'multi_namespace_samples': 100, 'regenerated_over_existing_file': 100}
 ANCHORS = ['oslo_policy.generator:_format_help_text', 'oslo_policy.generator:_format_rule_default_yaml',
            'oslo_policy.generator:_format_rule_default_json', 'oslo_policy.generator:_generate_sample',
            'oslo_policy.generator:_sort_and_format_by_section']
@@ -101,14 +102,27 @@ def check_case(ctx, case):
     if len(set(names)) != len(names):
         return
     expected = {d.name: d.check_str for d in defaults}
-    ext = stevedore.extension.Extension(name='pv', entry_point=None, plugin=None, obj=defaults)
-    mgr = stevedore.named.NamedExtensionManager.make_test_instance([ext], namespace='pv')
+    # the defaults are spread over several namespaces; some namespaces register nothing
+    split = case.get('namespaces') or [len(defaults)]
+    exts, pos = [], 0
+    for i, n in enumerate(split):
+        exts.append(stevedore.extension.Extension(name='pv%d' % i, entry_point=None, plugin=None, obj=defaults[pos:pos + n]))
+        pos += n
+    exts[-1].obj.extend(defaults[pos:])
+    mgr = stevedore.named.NamedExtensionManager.make_test_instance(exts, namespace=[e.name for e in exts])
     tmp = tempfile.mkdtemp(prefix='pvsample-')
     out = os.path.join(tmp, 'sample.' + case['fmt'])
+    if case.get('stale_output'):
+        # the tool is re-run over an existing, longer file from an earlier run
+        with open(out, 'w') as f:
+            f.write(('"zz:stale": "@"\n# old comment line that is fairly long\n' * 400) if case['fmt'] == 'yaml' else ('{"zz:stale": "@"}' + ' ' * 60000))
+        ctx.count('regenerated_over_existing_file')
+    if len(split) > 1:
+        ctx.count('multi_namespace_samples')
     try:
         try:
             with mock.patch('stevedore.named.NamedExtensionManager', return_value=mgr):
-                generator._generate_sample(['pv'], output_file=out, output_format=case['fmt'], include_help=True,
+                generator._generate_sample([e.name for e in exts], output_file=out, output_format=case['fmt'], include_help=True,
                                            exclude_deprecated=case['exclude'])
             with open(out, encoding='utf-8') as f:
                 text = f.read()
@@ -172,6 +186,14 @@ def run(ctx):
             break
         specs = [gen_default_spec(rnd, j) for j in range(rnd.randint(1, 6))]
         case = dict(specs=specs, fmt='yaml' if rnd.random() < 0.65 else 'json', exclude=rnd.random() < 0.4)
+        if rnd.random() < 0.4:
+            n, parts = len(specs), []
+            for _ in range(rnd.randint(2, 4)):
+                take = rnd.randint(0, n)
+                parts.append(take)
+                n -= take
+            case['namespaces'] = parts
+        case['stale_output'] = rnd.random() < 0.25
         check_case(ctx, case)
         if i % 500 == 0:
             ctx.sample(case, case['fmt'])
